@@ -21,7 +21,7 @@ func c04Opts(tier string) (*scnOpts, int) {
 		Terms:      []scn.Term{scn.TStop, scn.TReturn, scn.TRevert, scn.TInvalid, scn.TUnderflow, scn.TOOG, scn.TSelfdestruct},
 		Kinds:      []scn.Kind{scn.KCall, scn.KCallCode, scn.KDelegateCall, scn.KStaticCall, scn.KCreate, scn.KCreate2},
 		Values:     []int{0, 1, 2},
-		Targets:    []scn.Target{scn.TgChild, scn.TgPrecompile, scn.TgCodeless, scn.TgBadPrecompile},
+		Targets:    []scn.Target{scn.TgChild, scn.TgPrecompile, scn.TgCodeless, scn.TgBadPrecompile, scn.TgAbsent},
 		LeafCalls:  false,
 		PreEffects: []scn.Effect{scn.ENone, scn.ESstore},
 	}
